@@ -1096,6 +1096,14 @@ class Object( object ):
             # sequence of unsigned bytes.
             data.service       |= 0x80
             result		= b''
+            if 'path' in data:
+                # The request must address this Object.  A path designating an unknown Class or
+                # Instance must fail, not be satisfied from (or written to) our own Attributes.
+                data.status	= 0x05		# Request Path destination unknown
+                clid, inid, _	= resolve( data.path )
+                assert clid == self.class_id and inid == self.instance_id, \
+                    "Path %r processed by wrong Object %r" % ( data.path['segment'], self )
+                data.status	= 0x08
             if data.service == self.GA_ALL_RPY:
                 # Get Attributes All.  Collect up the bytes representing the attributes.  Replace
                 # the place-holder .get_attribute_all=True with a real dotdict.  Returns only the
